@@ -432,6 +432,47 @@ pub fn macro_pair(entropy: &[u32]) -> Option<Pair> {
     Some(Pair { original, expanded, labels: vec![] })
 }
 
+// ------------------------------------------------------------------------------------------------ programs with type errors
+
+/// A small program in which some expressions have the wrong type: the diagnostics quote the expression, and must read
+/// the same however the source is laid out (used by the layout and formatter checks).
+pub fn type_error_program(entropy: &[u32]) -> Program {
+    let mut e = Ent::new(entropy);
+    let mut main = vec![Stmt::Const { name: "sq".into(), e: Expr::str("ab") }, Stmt::Const { name: "nq".into(), e: Expr::num(3) }, Stmt::Label { name: "startq".into(), block: None }];
+    let int_expr = |e: &mut Ent| -> Expr {
+        let leaf = |e: &mut Ent| match e.below(4) {
+            0 => Expr::num(e.range(0, 300)),
+            1 => Expr::hex(e.range(0, 0xffff)),
+            2 => Expr::id("nq"),
+            _ => Expr::Paren(Box::new(Expr::bin(Expr::id("startq"), BinOp::Add, Expr::num(1)))),
+        };
+        let op = *e.pick(&[BinOp::Add, BinOp::Sub, BinOp::Mul, BinOp::Eq, BinOp::Lt]);
+        Expr::bin(leaf(e), op, leaf(e))
+    };
+    let str_expr = |e: &mut Ent| -> Expr {
+        let leaf = |e: &mut Ent| match e.below(3) {
+            0 => Expr::str("x"),
+            1 => Expr::id("sq"),
+            _ => Expr::Str(vec![StrPart::Lit("q".into()), StrPart::Interp(vec!["sq".into()])]),
+        };
+        Expr::bin(leaf(e), BinOp::Add, leaf(e))
+    };
+    for _ in 0..1 + e.below(4) {
+        main.push(match e.below(8) {
+            0 => Stmt::Text { enc: Encoding::Ascii, e: int_expr(&mut e) },
+            1 => Stmt::Data { size: DataSize::Byte, vals: vec![Expr::num(1), str_expr(&mut e)] },
+            2 => instr("lda", Form::Imm, Some(str_expr(&mut e))),
+            3 => Stmt::Loop { count: str_expr(&mut e), body: vec![instr("nop", Form::None, None)] },
+            4 => Stmt::Text { enc: Encoding::Ascii, e: Expr::Str(vec![StrPart::Lit("v".into()), StrPart::Interp(vec!["nq".into()])]) },
+            5 => Stmt::Align(str_expr(&mut e)),
+            6 => instr("sta", Form::Plain, Some(Expr::hex(0xd020))),
+            _ => Stmt::Data { size: DataSize::Word, vals: vec![int_expr(&mut e)] },
+        });
+    }
+    main.push(instr("rts", Form::None, None));
+    Program::single(main)
+}
+
 // ------------------------------------------------------------------------------------------------ the property
 
 fn asm(p: &Program) -> Option<Assembled> {
